@@ -305,11 +305,55 @@ def law_grid_fractional(ctx):
                         return
 
 
+def oom_with_a_neighbour(ctx):
+    """the OOM of a container does not depend on its neighbours: container A steps from 5 to 15 GB (limit 12) in the very tick in which container B, next to it
+    in the pool, ends and gives 10 GB back -- the pool's total does not move, A fails all the same, in exactly that tick, its earlier operator completed"""
+    from eudoxia.executor import Executor
+    from eudoxia.executor.assignment import Assignment
+    from eudoxia.workload.pipeline import Segment, Pipeline
+    from eudoxia.workload import OperatorState as S
+    from eudoxia.utils import Priority
+    rng = random.Random(ctx.seed + 61)
+    for case in range(4 if ctx.quick() else 20):
+        tps, k = rng.choice([1, 2, 4]), rng.randint(1, 3)
+        over = case % 2 == 1
+        ex = Executor(1, 8, 64, tps, multi_operator_containers=True, allow_memory_overcommit=over)
+        pa, pb = Pipeline("a", Priority.BATCH_PIPELINE), Pipeline("b", Priority.BATCH_PIPELINE)
+        a1 = pa.new_operator(None)
+        a1.add_segment(Segment(baseline_cpu_seconds=k / tps, cpu_scaling="const", memory_gb=5, storage_read_gb=0))
+        a2 = pa.new_operator([a1])
+        a2.add_segment(Segment(baseline_cpu_seconds=4 / tps, cpu_scaling="const", memory_gb=15, storage_read_gb=0))
+        b1 = pb.new_operator(None)
+        b1.add_segment(Segment(baseline_cpu_seconds=(k + 1) / tps, cpu_scaling="const", memory_gb=10, storage_read_gb=0))
+        asg = [Assignment([a1, a2], 1, 12, pa.priority, 0, "a"), Assignment([b1], 1, 12, pb.priority, 0, "b")]
+        if case % 4 >= 2:
+            asg.reverse()
+        failed_at = None
+        for t in range(1, k + 8):
+            res = ex.run_one_tick([], asg if t == 1 else [])
+            for r in res:
+                if r.failed() and a1 in r.ops:
+                    failed_at = t
+            if failed_at:
+                break
+        ctx.coverage["evaluations"] += 1
+        ctx.sit("oom_with_a_neighbour_runs")
+        states = (a1.state(), a2.state())
+        if failed_at != k + 1 or states != (S.COMPLETED, S.FAILED):
+            ctx.violations.append({"what": f"container A (operators of {k} ticks at 5 GB, then 15 GB; limit 12 GB) next to a container that ends in tick {k + 1} and frees "
+                                           f"10 GB ({tps} ticks/s, overcommit {over}): A must fail with OOM in tick {k + 1} with its first operator completed; observed: "
+                                           f"failure in tick {failed_at}, operator states {[x.name for x in states]}", "layer": "E",
+                                   "case": {"tps": tps, "k": k, "over": over}, "sig": {"clause": "oom-first-excess-neighbour"}})
+            return
+        ctx.coverage["distinct_nontrivial"] += 1
+
+
 def run(ctx):
     drv = Driver()
     try:
         law_grid(ctx, drv)
         law_grid_fractional(ctx)
+        oom_with_a_neighbour(ctx)
         rng = random.Random(ctx.seed)
         n = 2500 if ctx.quick() else 25000
         for i in range(n):
